@@ -37,6 +37,13 @@ func probe(a arg) (string, string) {
 		if err != nil || string(b) != c.want {
 			return "formatter", fmt.Sprintf("DefaultFormatter(%d, format=%d) = %q, %v; want %q", a.S, c.f, b, err, c.want)
 		}
+		// the rendering must not depend on the destination buffer's spare capacity
+		for _, spare := range []int{1, 8, 24, 64} {
+			b, err = size.DefaultFormatter(make([]byte, 0, spare), s, c.f)
+			if err != nil || string(b) != c.want {
+				return "formatter_with_spare_capacity", fmt.Sprintf("DefaultFormatter(make([]byte,0,%d), %d, format=%d) = %q, %v; want %q", spare, a.S, c.f, b, err, c.want)
+			}
+		}
 	}
 	if g := s.String(); g != plain {
 		return "string", fmt.Sprintf("Size(%d).String() = %q want %q", a.S, g, plain)
